@@ -17,6 +17,7 @@ import (
 	"strings"
 	"sync"
 	"sync/atomic"
+	"syscall"
 	"time"
 
 	"github.com/bluenviron/gortsplib/v5"
@@ -161,6 +162,7 @@ func c13run(sc *c13scn, s *vt.Sink) (err error) {
 	}()
 	rng := rand.New(rand.NewSource(sc.Seed))
 	base0 := c13libGoroutines()
+	socks := &c13socks{}
 
 	cfg := bed.ServerCfg{UDP: true, Medias: 2, WriteQueueSize: 64, ReadTimeout: 3 * time.Second,
 		WriteTimeout: 1500 * time.Millisecond}
@@ -287,7 +289,29 @@ func c13run(sc *c13scn, s *vt.Sink) (err error) {
 			if i < len(sc.Mix) {
 				proto = sc.Mix[i]
 			}
-			rd, err := bd.NewReader(bed.ReaderCfg{Proto: proto, Tunnel: sc.Tunnel, Timeout: 5 * time.Second},
+			rcfg := bed.ReaderCfg{Proto: proto, Tunnel: sc.Tunnel, Timeout: 5 * time.Second}
+			if proto == "udp" {
+				// the client's own UDP sockets are tracked (every one it opens must be closed by
+				// Close), and the first bind of an odd (RTCP) port fails in half of the scenarios,
+				// as it does when that port is taken: the client then moves on to another pair
+				failOdd := sc.Seed%2 == 0
+				rcfg.Extra = func(c *gortsplib.Client) {
+					c.ListenPacket = func(network, address string) (net.PacketConn, error) {
+						if _, ps, err := net.SplitHostPort(address); err == nil && failOdd {
+							if pn, _ := strconv.Atoi(ps); pn%2 == 1 {
+								failOdd = false
+								return nil, fmt.Errorf("listen %s: address already in use", address)
+							}
+						}
+						pc, err := net.ListenPacket(network, address)
+						if err != nil {
+							return nil, err
+						}
+						return socks.track(pc), nil
+					}
+				}
+			}
+			rd, err := bd.NewReader(rcfg,
 				"stream", func(_ *description.Media, _ format.Format, _ *rtp.Packet) {})
 			if err != nil {
 				return fmt.Errorf("c13: reader (%+v): %w", sc, err)
@@ -400,8 +424,57 @@ func c13run(sc *c13scn, s *vt.Sink) (err error) {
 		}
 		time.Sleep(5 * time.Millisecond)
 	}
-	tr.Emit("census", "goroutines", left, "ports", c13portsBusy(bd.IP, bd.Port, bd.UDPPort))
+	tr.Emit("census", "goroutines", left, "ports", c13portsBusy(bd.IP, bd.Port, bd.UDPPort)+socks.open())
 	bd.SetTrace(nil)
 	tr.Emit("end")
+	return nil
+}
+
+// c13socks tracks the packet connections a client opened through its ListenPacket hook.
+type c13socks struct {
+	mu sync.Mutex
+	n  int
+}
+
+type c13sock struct {
+	net.PacketConn
+	s    *c13socks
+	once sync.Once
+}
+
+func (s *c13socks) track(pc net.PacketConn) net.PacketConn {
+	s.mu.Lock()
+	s.n++
+	s.mu.Unlock()
+	return &c13sock{PacketConn: pc, s: s}
+}
+
+func (s *c13socks) open() int {
+	s.mu.Lock()
+	defer s.mu.Unlock()
+	return s.n
+}
+
+func (c *c13sock) Close() error {
+	c.once.Do(func() {
+		c.s.mu.Lock()
+		c.s.n--
+		c.s.mu.Unlock()
+	})
+	return c.PacketConn.Close()
+}
+
+// the library type-asserts these on its UDP sockets
+func (c *c13sock) SyscallConn() (syscall.RawConn, error) {
+	if u, ok := c.PacketConn.(*net.UDPConn); ok {
+		return u.SyscallConn()
+	}
+	return nil, fmt.Errorf("not a UDP connection")
+}
+
+func (c *c13sock) SetReadBuffer(n int) error {
+	if u, ok := c.PacketConn.(*net.UDPConn); ok {
+		return u.SetReadBuffer(n)
+	}
 	return nil
 }
